@@ -213,11 +213,10 @@ fn buffered(ctx: &mut Ctx) {
             }
             out.extend_from_slice(&seg);
             if ci + 1 < bounds.len() {
+                // (only "resumes correctly" is demanded of the exported pair, not how the position
+                // is represented)
                 let (blk, pos) = cur.state();
-                if pos != c % b {
-                    return Err(format!("exported position {} after {} bytes", pos, c));
-                }
-                midpos |= pos != 0;
+                midpos |= c % b != 0;
                 cur = (d.from_state)(&key, &blk, pos);
             }
             prev = c;
@@ -322,21 +321,22 @@ fn core(ctx: &mut Ctx) {
                         }
                     }
                     Flavor::Belt => {
-                        if ctx.cfg.spied && !next_in.is_empty() {
-                            // E(state) + 1 = next cipher input
-                            let mut t = st.clone();
-                            ctx.rc.e(&mut t);
-                            let s = u128::from_le_bytes(t.as_slice().try_into().unwrap());
-                            let want = s.wrapping_add(1).to_le_bytes().to_vec();
-                            if next_in != want {
-                                return ctx.violation(&format!("C09/chaining-value/{}", name), format!("E(iv_state)+1 = {} but the next block the cipher is asked for is {}", hex_short(&want), hex_short(&next_in)));
-                            }
+                        // the value that resumes BelT-CTR after `cut` blocks: E(state) = s0 + cut
+                        // (definitional, with the harness's own E; which block the cipher happens to
+                        // be asked for next is not part of the property)
+                        let mut t = st.clone();
+                        ctx.rc.e(&mut t);
+                        let want = crate::model::belt_s0(ctx.rc.as_ref(), &iv).wrapping_add(cut as u128).to_le_bytes().to_vec();
+                        if t != want {
+                            return ctx.violation(&format!("C09/chaining-value/{}", name), format!("E(iv_state) = {} but s0 + {} = {}", hex_short(&t), cut, hex_short(&want)));
                         }
+                        let _ = &next_in;
                     }
                     _ => {
-                        // CTR: the exported value is the next counter block the cipher is asked to encrypt
-                        if ctx.cfg.spied && !next_in.is_empty() && next_in != st {
-                            return ctx.violation(&format!("C09/chaining-value/{}", name), format!("iv_state {} != next counter block seen by the cipher {}", hex_short(&st), hex_short(&next_in)));
+                        // CTR: the exported value is the next counter block, layout(IV, cut)
+                        let want = crate::model::ks_input(ctx.rc.as_ref(), fl, &iv, cut as u128);
+                        if st != want {
+                            return ctx.violation(&format!("C09/chaining-value/{}", name), format!("iv_state {} != next counter block {}", hex_short(&st), hex_short(&want)));
                         }
                     }
                 }
